@@ -1007,6 +1007,8 @@ var compInvalid = []string{
 	`{"cache":{"memory":{"memory_budget_percent":40}},"proxy":{"listen":""}}`, `{"cache":{"max_cache_size":"8192B"},"webserver":{"listen":""}}`,
 	`{"webserver":{"api_disabled":true,"dashboard_disabled":false}}`, // (api_disabled alone depends on what is in force: cfg-roundtrip models that)
 	`{"cache":{"lock_shards":0}}`, `{"cache":{"lock_shards":-3}}`, `{"cache":{"lock_shards":"many"}}`, `{"cache":{"lock_shards":1099511627776}}`, `{"cache":{"lock_shards":4503599627370496}}`, `{"proxy":{"listen":"","ca_cert":"x"}}`, `{"cache":{"file":{"dir":""}},"logging":{"level":"WARN"}}`,
+	// addresses nobody can listen on: the next start would fail
+	`{"proxy":{"listen":"nonsense"}}`, `{"proxy":{"listen":"localhost:99999"}}`, `{"webserver":{"listen":"localhost"}}`, `{"proxy":{"listen":"[::1"}}`, `{"webserver":{"listen":"0.0.0.0:http-but-not-a-service"}}`,
 	`{"cache":{"max_cache_size":"3G M"}}`, `{"cache":{"max_cache_size":"K"}}`, `{"cache":{"max_cache_size":"99999999999999999999B"}}`,
 	// a workable value for one setting next to an ill-typed one for another: refused while the document
 	// is being read, possibly after the first setting has already been taken in
